@@ -203,6 +203,8 @@ class SWorld:
                 return "value", self.misfit_check()
             elif op == "sim_misfit":
                 return "value", self.misfit_persistent()
+            elif op == "newsim_misfit":
+                return "value", self.misfit_newsim()
             else:
                 raise ValueError(op)
         except ValueError as e:
@@ -235,6 +237,28 @@ class SWorld:
             return (f"misfit of a long-lived simulation after "
                     f"clean('computed') is {m}, but 1/2 sum |r|^2/std^2 = "
                     f"{exp} for the current noise settings")
+        return None
+
+    def misfit_newsim(self):
+        """NewSimMisfit: a Simulation newly created on THIS survey object
+        (which may have served other simulations before), no clean."""
+        hx = np.ones(4)*100.
+        grid = emg3d.TensorMesh([hx, hx, hx], (-300, -200, -200))
+        sim = emg3d.Simulation(
+            self.sv, emg3d.Model(grid, 1.0), gridding='same',
+            max_workers=1, tqdm_opts={'disable': True})
+        obs = self.sv.data.observed.data
+        sim.data['synthetic'][...] = np.where(np.isfinite(obs), obs + (3+4j),
+                                              np.nan)
+        sim._computed = True
+        m = float(sim.misfit)
+        std = self.sv.standard_deviation.data
+        ok = np.isfinite(obs) & np.isfinite(std)
+        exp = 0.5*np.sum(25.0/std[ok]**2)
+        if not np.isclose(m, exp, rtol=1e-12, atol=0):
+            return (f"misfit of a newly created simulation is {m}, but "
+                    f"1/2 sum |r|^2/std^2 = {exp} for the current noise "
+                    f"settings of its survey")
         return None
 
     def misfit_check(self):
